@@ -31,7 +31,7 @@ Definition addressed (v : version) (o : obj) (r : areq) : option (target * actio
       | Some (Some n, nv) =>
         match mfield_of_name n with
         | Some f =>
-          match m_current p with
+          match cur_val p with
           | Some c => option_map (fun i => (TInstance f i, AReplace nv)) (first_index c (mget f o))
           | None => None
           end
